@@ -53,6 +53,12 @@ class SymBool:
     def __bool__(self):
         return _eng.current().branch(self.t)
 
+    def __deepcopy__(self, memo):
+        return self
+
+    def __copy__(self):
+        return self
+
     def __invert__(self):
         return mkbool(z3.Not(self.t))
 
@@ -171,6 +177,15 @@ class SymReal:
             raise TypeError(f"cannot lift {type(x)} to SymReal")
         o.c = f
         return o
+
+    def __deepcopy__(self, memo):
+        return self          # immutable value
+
+    def __copy__(self):
+        return self
+
+    def __reduce__(self):
+        raise TypeError("symbolic values do not cross a real pickle boundary")
 
     # -- helpers
     @staticmethod
